@@ -12,6 +12,15 @@ package hjky
 //@   ensures result == nil ==> m != nil && m.ZeroShare != nil && m.ZeroShare.ID() == participant.SharingID()
 //@   ensures forall x V :: !culprit(result, x)
 
+// A broadcast is valid only if it carries a verification vector of the scheme's dimension with usable entries.
+//@ func (*Round1Broadcast).Validate
+//@   property C04
+//@   purefn
+//@   ensures result == nil ==> m != nil && m.VerificationVector != nil
+//@   ensures forall x V :: !culprit(result, x)
+//@   loop range(r)
+//@     invariant true
+
 //@ func (*Participant).SharingID
 //@   property C04
 //@   purefn
@@ -33,6 +42,10 @@ package hjky
 //@   requires p.scheme.lsss.MSP() != nil ==> wfM(p.scheme.lsss.MSP().Matrix())
 //@   ensures err == nil ==> forall a Int :: 0 <= a && a < seqlen(p.ctx.OtherPartiesOrdered()) ==> r2Checks(p, r1b, r1u, oth(p, a))
 //@   ensures err == nil ==> share != nil && share.ID() == p.ctx.HolderID()
+// blame is exact: whoever is tagged is another party of the session that failed one of its checks
+//@   ensures err != nil ==> forall x V :: culprit(err, x) ==> exists a Int :: 0 <= a && a < seqlen(p.ctx.OtherPartiesOrdered()) && x == box(oth(p, a))
+// not claimed: the exact form needs the dimension contracts of VerificationVector.Op (the "failed to accumulate" branch)
+//@   unproved ensures err != nil ==> forall x V :: culprit(err, x) ==> exists a Int :: 0 <= a && a < seqlen(p.ctx.OtherPartiesOrdered()) && x == box(oth(p, a)) && !r2Checks(p, r1b, r1u, oth(p, a))
 //@   ensures err == nil ==> p.round == old(p.round) + 1
 //@   loop range(p.ctx.OtherPartiesOrdered())
 //@     invariant forall a Int :: 0 <= a && a < seqlen(p.ctx.OtherPartiesOrdered()) ==> msgOK(p, r1b, oth(p, a)) && msgOK(p, r1u, oth(p, a))
